@@ -913,6 +913,20 @@ func (cx *evalCtx) call(x *ast.CallExpr) (TV, error) {
 			}
 			mi := r.mapHeaps(cx.st, mt)
 			return TV{and(not(eq(as[0].S, "0")), app("select", app("select", mi.dom, as[0].S), as[1].S)), SBool, types.Typ[types.Bool]}, nil
+		case "fresh":
+			// fresh(x): the object x was allocated during the call (not reachable from the pre-state)
+			as, err := cx.args(x.Args)
+			if err != nil {
+				return TV{}, err
+			}
+			if cx.old == nil {
+				return TV{}, fmt.Errorf("fresh() needs a pre-state")
+			}
+			ref := as[0].S
+			if as[0].Sort == SSlice {
+				ref = app("s_arr", ref)
+			}
+			return TV{app(">=", ref, cx.old.frontier), SBool, types.Typ[types.Bool]}, nil
 		case "seen":
 			// seen(k): key k was already produced by the map iteration in progress (ghost visited set)
 			as, err := cx.args(x.Args)
